@@ -61,9 +61,19 @@ void error_at(char *loc, char *fmt, ...) {
   exit(1);
 }
 
+// A token that comes from a -D or predefined macro lives in the
+// pseudo-file "<built-in>", which is no position in any input file:
+// report the macro invocation it was expanded from instead.
+static Token *reportable(Token *tok) {
+  while (tok->origin && !strcmp(tok->file->name, "<built-in>"))
+    tok = tok->origin;
+  return tok;
+}
+
 void error_tok(Token *tok, char *fmt, ...) {
   va_list ap;
   va_start(ap, fmt);
+  tok = reportable(tok);
   verror_at(tok->file->name, tok->file->contents, tok->line_no, tok->loc, fmt, ap);
   exit(1);
 }
@@ -71,6 +81,7 @@ void error_tok(Token *tok, char *fmt, ...) {
 void warn_tok(Token *tok, char *fmt, ...) {
   va_list ap;
   va_start(ap, fmt);
+  tok = reportable(tok);
   verror_at(tok->file->name, tok->file->contents, tok->line_no, tok->loc, fmt, ap);
   va_end(ap);
 }
